@@ -10,11 +10,13 @@
      and true (data pushes and hash outputs of real scripts); hash functions / signature checks are arbitrary
      oracles shared by both sides (premises on them are visible in each statement);
    * op_agree_good l c : both continue with the same stack of good items, or both fail the script;
-   * agree l c : same verdict and, when valid, Core's final stack = the item the library popped :: Script.stack. *)
+   * agree l c : same verdict and, when valid, Core's final stack = the item the library popped :: Script.stack;
+   * structured p (Proofs/EvalIf.v): p is well nested over the straight-line fragment plus OP_IF / OP_NOTIF
+     (99 / 100), OP_ELSE (103), OP_ENDIF (104), at most one OP_ELSE per OP_IF, any nesting depth (section 6). *)
 From Coq Require Import ZArith List Bool.
 From Coq.Strings Require Import Byte.
 From Verif Require Import Lib.Bytes Gen.GenConsts Model.Wire Model.EvalLib Model.EvalCore
-  Proofs.EvalNum Proofs.EvalOps Proofs.EvalRun Proofs.EvalRefute.
+  Proofs.EvalNum Proofs.EvalOps Proofs.EvalRun Proofs.EvalRefute Proofs.EvalIf Proofs.EvalStd Proofs.EvalIfOpen.
 Import ListNotations.
 Open Scope Z_scope.
 
@@ -595,6 +597,275 @@ Example no_resource_limits_refuted :   (* 1 followed by 202 OP_NOP: over MAX_OPS
   core_limits_ok (COp 81 :: repeat (COp 97) 202) = false.
 Proof. vm_compute. split; reflexivity. Qed.
 
+(* ------------------------------------------------------------------------------------------------
+   6. conditionals: well-nested programs, at most one OP_ELSE per OP_IF, nested to any depth
+      structured []                                              structured (c :: p)        [c straight]
+      structured (COp n :: t ++ COp 104 :: p)                    [n = 99 / 100; t, p structured]
+      structured (COp n :: t ++ COp 103 :: f ++ COp 104 :: p)    [n = 99 / 100; t, f, p structured]
+   ------------------------------------------------------------------------------------------------ *)
+
+(* the class is decidable: a boolean recogniser that is sound for it *)
+Theorem structuredb_is_structured : forall cmds : list scmd, structuredb cmds = true -> structured cmds.
+Proof. exact structuredb_sound. Qed.
+
+(* it contains the straight-line fragment and is closed under concatenation *)
+Theorem straight_is_structured : forall p : list scmd, straight p = true -> structured p.
+Proof. exact straight_structured. Qed.
+
+Theorem structured_concat : forall a b : list scmd, structured a -> structured b -> structured (a ++ b).
+Proof. exact structured_app. Qed.
+
+(* Stack.op_if's scan of the remaining commands returns exactly the two branches and the rest *)
+Theorem lib_scan_finds_branches :
+  forall t f p : list scmd, structured t -> structured f ->
+    split_if (t ++ COp 103 :: f ++ COp 104 :: p) 0 false [] [] = Some (t, f, p).
+Proof. exact split_if_block_else. Qed.
+
+Theorem lib_scan_finds_branch_noelse :
+  forall t p : list scmd, structured t -> split_if (t ++ COp 104 :: p) 0 false [] [] = Some (t, [], p).
+Proof. exact split_if_block. Qed.
+
+(* Core's condition stack on a block = running the branch CastToBool selects, then the rest *)
+Theorem core_conditional_is_branch_choice :
+  forall (h_ripemd160 h_sha1 h_sha256 : bytes -> bytes) (sigcheck : bytes -> bytes -> sigres) (e : env) (fl : flags)
+         (n : Z) (t f p : list scmd) (x : bytes) (r : list bytes),
+    is_if n = true -> structured t -> structured f ->
+    core_run h_ripemd160 h_sha1 h_sha256 sigcheck e fl (COp n :: t ++ COp 103 :: f ++ COp 104 :: p) (x :: r) [] =
+    core_run h_ripemd160 h_sha1 h_sha256 sigcheck e fl
+      ((if (if n =? 100 then negb (cast_to_bool x) else cast_to_bool x) then t else f) ++ p) r [].
+Proof. exact core_if_else. Qed.
+
+(* a structured piece inside a branch that is not executed leaves data stack and condition stack alone *)
+Theorem core_unexecuted_branch_is_noop :
+  forall (h_ripemd160 h_sha1 h_sha256 : bytes -> bytes) (sigcheck : bytes -> bytes -> sigres) (e : env) (fl : flags)
+         (t : list scmd), structured t ->
+    forall (s : list bytes) (vf : list bool), forallb (fun b => b) vf = false ->
+      core_run h_ripemd160 h_sha1 h_sha256 sigcheck e fl t s vf = CDone s vf.
+Proof. exact core_skip. Qed.
+
+(* THE theorem for conditionals, without any dynamic guard: for every structured program (any length, any
+   nesting depth), every initial stack of good items, all oracles / environments / flags, either both
+   interpreters agree (same verdict, same final stack) or the library raised IndexError out of
+   op_if / op_notif (no condition item on the stack) at a point where Core fails the script *)
+Theorem agree_if_or_crash :
+  forall (h_ripemd160 h_sha1 h_sha256 : bytes -> bytes) (sigcheck : bytes -> bytes -> sigres) (e : env) (fl : flags),
+    (forall x, good (h_ripemd160 x)) -> (forall x, good (h_sha1 x)) -> (forall x, good (h_sha256 x)) ->
+    forall (cmds : list scmd) (fu : nat) (s : list bytes),
+      (length cmds < fu)%nat -> structured cmds -> Forall good s ->
+      agree (lib_run h_ripemd160 h_sha1 h_sha256 sigcheck e fu cmds s)
+            (core_finish (core_run h_ripemd160 h_sha1 h_sha256 sigcheck e fl cmds s [])) \/
+      (r_verdict (lib_run h_ripemd160 h_sha1 h_sha256 sigcheck e fu cmds s) = CrashIndex /\
+       fst (core_finish (core_run h_ripemd160 h_sha1 h_sha256 sigcheck e fl cmds s [])) = Invalid).
+Proof. exact agree_if_or_crash_gen. Qed.
+
+(* agree_if: under the guard "every executed OP_IF / OP_NOTIF finds its condition item" (= the library does
+   not raise IndexError), lib and Core agree on every structured program *)
+Theorem agree_if :
+  forall (h_ripemd160 h_sha1 h_sha256 : bytes -> bytes) (sigcheck : bytes -> bytes -> sigres) (e : env) (fl : flags),
+    (forall x, good (h_ripemd160 x)) -> (forall x, good (h_sha1 x)) -> (forall x, good (h_sha256 x)) ->
+    forall (cmds : list scmd) (fu : nat) (s : list bytes),
+      (length cmds < fu)%nat -> structured cmds -> Forall good s ->
+      r_verdict (lib_run h_ripemd160 h_sha1 h_sha256 sigcheck e fu cmds s) <> CrashIndex ->
+      agree (lib_run h_ripemd160 h_sha1 h_sha256 sigcheck e fu cmds s)
+            (core_finish (core_run h_ripemd160 h_sha1 h_sha256 sigcheck e fl cmds s [])).
+Proof. exact agree_if_gen. Qed.
+
+(* Script(cmds).evaluate() against EvalScript + final truth test *)
+Theorem agree_if_evaluate :
+  forall (h_ripemd160 h_sha1 h_sha256 : bytes -> bytes) (sigcheck : bytes -> bytes -> sigres) (e : env) (fl : flags),
+    (forall x, good (h_ripemd160 x)) -> (forall x, good (h_sha1 x)) -> (forall x, good (h_sha256 x)) ->
+    forall cmds : list scmd, structured cmds ->
+      r_verdict (lib_eval h_ripemd160 h_sha1 h_sha256 sigcheck e cmds) <> CrashIndex ->
+      agree (lib_eval h_ripemd160 h_sha1 h_sha256 sigcheck e cmds)
+            (core_eval h_ripemd160 h_sha1 h_sha256 sigcheck e fl cmds).
+Proof. exact agree_if_eval. Qed.
+
+(* the excluded case itself is harmless for consensus: where IndexError escapes, Core rejects *)
+Theorem if_crash_only_where_core_fails :
+  forall (h_ripemd160 h_sha1 h_sha256 : bytes -> bytes) (sigcheck : bytes -> bytes -> sigres) (e : env) (fl : flags),
+    (forall x, good (h_ripemd160 x)) -> (forall x, good (h_sha1 x)) -> (forall x, good (h_sha256 x)) ->
+    forall cmds : list scmd, structured cmds ->
+      r_verdict (lib_eval h_ripemd160 h_sha1 h_sha256 sigcheck e cmds) = CrashIndex ->
+      fst (core_eval h_ripemd160 h_sha1 h_sha256 sigcheck e fl cmds) = Invalid.
+Proof. exact if_crash_core_invalid. Qed.
+
+(* the safety half on structured programs (no guard on the condition items needed) *)
+Theorem never_valid_when_core_rejects_structured :
+  forall (h_ripemd160 h_sha1 h_sha256 : bytes -> bytes) (sigcheck : bytes -> bytes -> sigres) (e : env) (fl : flags),
+    (forall x, good (h_ripemd160 x)) -> (forall x, good (h_sha1 x)) -> (forall x, good (h_sha256 x)) ->
+    forall cmds : list scmd, structured cmds ->
+      r_verdict (lib_eval h_ripemd160 h_sha1 h_sha256 sigcheck e cmds) = Valid ->
+      fst (core_eval h_ripemd160 h_sha1 h_sha256 sigcheck e fl cmds) = Valid.
+Proof. exact never_valid_structured. Qed.
+
+(* non-vacuity: the oracle hypotheses are satisfiable; an IF/ELSE/ENDIF nested inside an IF branch, and a
+   NOTIF block with a nested IF/ELSE, are structured and Valid on both sides with the same final stack:
+     1 IF  0 IF 0 ELSE 1 ENDIF  ELSE 0 ENDIF          0 NOTIF  1 IF 2 3 ADD ELSE 0 ENDIF 5 EQUAL  ELSE 0 ENDIF *)
+Example oracle_hypotheses_satisfiable : forall x : bytes, good (consth x).
+Proof. exact consth_good. Qed.
+
+Example structured_nonvacuous :
+  structuredb [COp 81; COp 99; COp 0; COp 99; COp 0; COp 103; COp 81; COp 104; COp 103; COp 0; COp 104] = true /\
+  lib_eval1 [COp 81; COp 99; COp 0; COp 99; COp 0; COp 103; COp 81; COp 104; COp 103; COp 0; COp 104]
+    = mkRes Valid [] (Some [x01]) /\
+  core_eval1 [COp 81; COp 99; COp 0; COp 99; COp 0; COp 103; COp 81; COp 104; COp 103; COp 0; COp 104]
+    = (Valid, [[x01]]) /\
+  structuredb [COp 0; COp 100; COp 81; COp 99; COp 82; COp 83; COp 147; COp 103; COp 0; COp 104; COp 85; COp 135;
+               COp 103; COp 0; COp 104] = true /\
+  lib_eval1 [COp 0; COp 100; COp 81; COp 99; COp 82; COp 83; COp 147; COp 103; COp 0; COp 104; COp 85; COp 135;
+             COp 103; COp 0; COp 104] = mkRes Valid [] (Some [x01]) /\
+  core_eval1 [COp 0; COp 100; COp 81; COp 99; COp 82; COp 83; COp 147; COp 103; COp 0; COp 104; COp 85; COp 135;
+              COp 103; COp 0; COp 104] = (Valid, [[x01]]).
+Proof. vm_compute. repeat split. Qed.
+
+(* the guard of agree_if is necessary: a structured program whose inner OP_NOTIF finds the stack empty *)
+Example agree_if_refuted_missing_condition :      (* 1 IF NOTIF 1 ENDIF ENDIF *)
+  structuredb [COp 81; COp 99; COp 100; COp 81; COp 104; COp 104] = true /\
+  r_verdict (lib_eval0 [COp 81; COp 99; COp 100; COp 81; COp 104; COp 104]) = CrashIndex /\
+  ~ agree (lib_eval0 [COp 81; COp 99; COp 100; COp 81; COp 104; COp 104])
+          (core_eval0 [COp 81; COp 99; COp 100; COp 81; COp 104; COp 104]).
+Proof. vm_compute. repeat split. exact (fun x => x). Qed.
+
+(* the classes outside [structured], each with a program on which the two interpreters differ *)
+Example second_else_not_structured :               (* see second_else_refuted below *)
+  structuredb [COp 0; COp 99; COp 0; COp 103; COp 81; COp 103; COp 0; COp 104] = false.
+Proof. vm_compute. reflexivity. Qed.
+
+Example unexecuted_disabled_refuted :              (* 0 IF OP_CAT ENDIF 1: the leaf is not in the fragment *)
+  structuredb [COp 0; COp 99; COp 126; COp 104; COp 81] = false /\
+  r_verdict (lib_eval0 [COp 0; COp 99; COp 126; COp 104; COp 81]) = Valid /\
+  fst (core_eval0 [COp 0; COp 99; COp 126; COp 104; COp 81]) = Invalid.
+Proof. vm_compute. repeat split. Qed.
+
+Example unexecuted_verif_refuted :                 (* 0 IF OP_VERIF ENDIF 1 *)
+  structuredb [COp 0; COp 99; COp 101; COp 104; COp 81] = false /\
+  r_verdict (lib_eval0 [COp 0; COp 99; COp 101; COp 104; COp 81]) = Valid /\
+  fst (core_eval0 [COp 0; COp 99; COp 101; COp 104; COp 81]) = Invalid.
+Proof. vm_compute. repeat split. Qed.
+
+Example stray_else_endif_refuted :                 (* 1 ELSE / 1 ENDIF: ScriptError in the library, script failure in Core *)
+  structuredb [COp 81; COp 103] = false /\ structuredb [COp 81; COp 104] = false /\
+  r_verdict (lib_eval0 [COp 81; COp 103]) = Unimplemented /\ fst (core_eval0 [COp 81; COp 103]) = Invalid /\
+  r_verdict (lib_eval0 [COp 81; COp 104]) = Unimplemented /\ fst (core_eval0 [COp 81; COp 104]) = Invalid.
+Proof. vm_compute. repeat split. Qed.
+
+(* the condition item itself needs no guard (if_condition_is_cast_to_bool): 80 (negative zero) selects the
+   ELSE branch on both sides *)
+Example if_condition_negative_zero :               (* <80> IF 0 ELSE 1 ENDIF *)
+  lib_eval0 [CPush [x80]; COp 99; COp 0; COp 103; COp 81; COp 104] = mkRes Valid [] (Some [x01]) /\
+  core_eval0 [CPush [x80]; COp 99; COp 0; COp 103; COp 81; COp 104] = (Valid, [[x01]]).
+Proof. vm_compute. split; reflexivity. Qed.
+
+(* ---- conditionals that are never closed (missing OP_ENDIF): open_program cmds :=
+        cmds = pre ++ COp n :: u, pre structured, n = 99 / 100, u [unclosed] (structured code, at most one OP_ELSE
+        at that level, possibly further conditionals that are not closed either; Proofs/EvalIfOpen.v) ---- *)
+
+(* Stack.op_if's scan finds no OP_ENDIF (evaluate returns False) *)
+Theorem lib_scan_finds_no_endif :
+  forall u : list scmd, unclosed u ->
+    forall (d : nat) (inf : bool) (ta fa : list scmd), split_if u d inf ta fa = None.
+Proof. exact split_if_unclosed. Qed.
+
+(* ... and Core ends with a non-empty condition stack or fails earlier: same verdict (Invalid) on both sides,
+   or the IndexError case of agree_if_or_crash *)
+Theorem agree_if_missing_endif :
+  forall (h_ripemd160 h_sha1 h_sha256 : bytes -> bytes) (sigcheck : bytes -> bytes -> sigres) (e : env) (fl : flags),
+    (forall x, good (h_ripemd160 x)) -> (forall x, good (h_sha1 x)) -> (forall x, good (h_sha256 x)) ->
+    forall (cmds : list scmd) (fu : nat) (s : list bytes),
+      (length cmds < fu)%nat -> open_program cmds -> Forall good s ->
+      agree (lib_run h_ripemd160 h_sha1 h_sha256 sigcheck e fu cmds s)
+            (core_finish (core_run h_ripemd160 h_sha1 h_sha256 sigcheck e fl cmds s [])) \/
+      (r_verdict (lib_run h_ripemd160 h_sha1 h_sha256 sigcheck e fu cmds s) = CrashIndex /\
+       fst (core_finish (core_run h_ripemd160 h_sha1 h_sha256 sigcheck e fl cmds s [])) = Invalid).
+Proof. exact agree_open_gen. Qed.
+
+Theorem missing_endif_never_valid :
+  forall (h_ripemd160 h_sha1 h_sha256 : bytes -> bytes) (sigcheck : bytes -> bytes -> sigres) (e : env) (fl : flags),
+    (forall x, good (h_ripemd160 x)) -> (forall x, good (h_sha1 x)) -> (forall x, good (h_sha256 x)) ->
+    forall (cmds : list scmd) (fu : nat) (s : list bytes),
+      (length cmds < fu)%nat -> open_program cmds -> Forall good s ->
+      r_verdict (lib_run h_ripemd160 h_sha1 h_sha256 sigcheck e fu cmds s) <> Valid /\
+      fst (core_finish (core_run h_ripemd160 h_sha1 h_sha256 sigcheck e fl cmds s [])) = Invalid.
+Proof. exact open_never_valid. Qed.
+
+Example missing_endif_nonvacuous :                 (* 1 IF  1 IF 1 ENDIF  ELSE 0 NOTIF 1      and      1 IF 1 *)
+  open_program [COp 81; COp 99; COp 81; COp 99; COp 81; COp 104; COp 103; COp 0; COp 100; COp 81] /\
+  r_verdict (lib_eval0 [COp 81; COp 99; COp 81; COp 99; COp 81; COp 104; COp 103; COp 0; COp 100; COp 81]) = Invalid /\
+  fst (core_eval0 [COp 81; COp 99; COp 81; COp 99; COp 81; COp 104; COp 103; COp 0; COp 100; COp 81]) = Invalid /\
+  open_program [COp 81; COp 99; COp 81] /\
+  r_verdict (lib_eval0 [COp 81; COp 99; COp 81]) = Invalid /\ fst (core_eval0 [COp 81; COp 99; COp 81]) = Invalid.
+Proof.
+  split.
+  { apply (open_program_intro [COp 81] 99
+             ([COp 81; COp 99; COp 81; COp 104] ++ COp 103 :: [COp 0] ++ COp 100 :: [COp 81])); try reflexivity.
+    apply un_else_if; try reflexivity; try (apply structuredb_sound; vm_compute; reflexivity).
+    apply un_end. apply structuredb_sound. vm_compute. reflexivity. }
+  split; [vm_compute; reflexivity|]. split; [vm_compute; reflexivity|]. split.
+  { apply (open_program_intro [COp 81] 99 [COp 81]); try reflexivity.
+    apply un_end. apply structuredb_sound. vm_compute. reflexivity. }
+  split; vm_compute; reflexivity.
+Qed.
+
+(* ------------------------------------------------------------------------------------------------
+   7. standard spends (scriptSig ++ scriptPubKey), arbitrary good signatures / keys / hashes / witness items
+      P2PKH  <sig> <pk> DUP HASH160 <h> EQUALVERIFY CHECKSIG          P2PK  <sig> <pk> CHECKSIG
+      HTLC   <wit...> IF SHA256 <h> EQUALVERIFY <pkA> ELSE <lock> CHECKLOCKTIMEVERIFY DROP <pkB> ENDIF CHECKSIG
+   ------------------------------------------------------------------------------------------------ *)
+
+Theorem standard_spends_agree :
+  forall (h_ripemd160 h_sha1 h_sha256 : bytes -> bytes) (sigcheck : bytes -> bytes -> sigres) (e : env) (fl : flags),
+    (forall x, good (h_ripemd160 x)) -> (forall x, good (h_sha1 x)) -> (forall x, good (h_sha256 x)) ->
+    (forall sig pk h, goodb sig = true -> goodb pk = true -> goodb h = true ->
+       agree (lib_eval h_ripemd160 h_sha1 h_sha256 sigcheck e (p2pkh_spend sig pk h))
+             (core_eval h_ripemd160 h_sha1 h_sha256 sigcheck e fl (p2pkh_spend sig pk h))) /\
+    (forall sig pk, goodb sig = true -> goodb pk = true ->
+       agree (lib_eval h_ripemd160 h_sha1 h_sha256 sigcheck e (p2pk_spend sig pk))
+             (core_eval h_ripemd160 h_sha1 h_sha256 sigcheck e fl (p2pk_spend sig pk))) /\
+    (forall wit h pkA lock pkB,
+       wit <> [] -> forallb goodb wit = true ->
+       goodb h = true -> goodb pkA = true -> goodb lock = true -> goodb pkB = true ->
+       agree (lib_eval h_ripemd160 h_sha1 h_sha256 sigcheck e (htlc_spend wit h pkA lock pkB))
+             (core_eval h_ripemd160 h_sha1 h_sha256 sigcheck e fl (htlc_spend wit h pkA lock pkB))).
+Proof. exact standard_spends_agree_all. Qed.
+
+(* a sufficient shape for the [goodb] premises: more than 5 bytes with a non-zero first byte (DER signatures
+   start with 30, public keys with 02 / 03 / 04) *)
+Theorem long_item_with_nonzero_head_is_good :
+  forall (b : byte) (r : list byte), bz b <> 0 -> (5 <= length r)%nat -> goodb (b :: r) = true.
+Proof. exact nonzero_head_good. Qed.
+
+(* non-vacuity: both paths of the contract are Valid on both sides (accepting signature oracle, hash oracle
+   with output 010203040506, nLockTime 100): claim = <sig> <preimage> 1, refund = <sig> 0 with lock 100 *)
+Example standard_spends_nonvacuous :
+  lib_eval1 (htlc_spend [[x30; x01; x02; x03; x04; x05]; [x07; x07; x07; x07; x07; x07]; [x01]]
+               [x01; x02; x03; x04; x05; x06] [x02; x01; x02; x03; x04; x05] [x64] [x03; x01; x02; x03; x04; x05])
+    = mkRes Valid [] (Some [x01]) /\
+  core_eval1 (htlc_spend [[x30; x01; x02; x03; x04; x05]; [x07; x07; x07; x07; x07; x07]; [x01]]
+               [x01; x02; x03; x04; x05; x06] [x02; x01; x02; x03; x04; x05] [x64] [x03; x01; x02; x03; x04; x05])
+    = (Valid, [[x01]]) /\
+  lib_eval1 (htlc_spend [[x30; x01; x02; x03; x04; x05]; []]
+               [x01; x02; x03; x04; x05; x06] [x02; x01; x02; x03; x04; x05] [x64] [x03; x01; x02; x03; x04; x05])
+    = mkRes Valid [] (Some [x01]) /\
+  core_eval1 (htlc_spend [[x30; x01; x02; x03; x04; x05]; []]
+               [x01; x02; x03; x04; x05; x06] [x02; x01; x02; x03; x04; x05] [x64] [x03; x01; x02; x03; x04; x05])
+    = (Valid, [[x01]]) /\
+  forallb goodb [[x30; x01; x02; x03; x04; x05]; [x07; x07; x07; x07; x07; x07]; [x01]; [];
+                 [x01; x02; x03; x04; x05; x06]; [x02; x01; x02; x03; x04; x05]; [x64];
+                 [x03; x01; x02; x03; x04; x05]] = true /\
+  lib_eval1 (p2pkh_spend [x30; x01; x02; x03; x04; x05] [x02; x01; x02; x03; x04; x05] [x01; x02; x03; x04; x05; x06])
+    = mkRes Valid [] (Some [x01]) /\
+  core_eval1 (p2pkh_spend [x30; x01; x02; x03; x04; x05] [x02; x01; x02; x03; x04; x05] [x01; x02; x03; x04; x05; x06])
+    = (Valid, [[x01]]).
+Proof. vm_compute. repeat split. Qed.
+
+(* the witness must be there: with an empty witness the contract's OP_IF raises in the library *)
+Example htlc_empty_witness_refuted :
+  r_verdict (lib_eval1 (htlc_spend [] [x01; x02; x03; x04; x05; x06] [x02; x01; x02; x03; x04; x05] [x64]
+                          [x03; x01; x02; x03; x04; x05])) = CrashIndex /\
+  fst (core_eval1 (htlc_spend [] [x01; x02; x03; x04; x05; x06] [x02; x01; x02; x03; x04; x05] [x64]
+                     [x03; x01; x02; x03; x04; x05])) = Invalid.
+Proof. vm_compute. split; reflexivity. Qed.
+
 Print Assumptions dispatch_is_core_opcode.
 Print Assumptions dispatchable_all_modelled.
 Print Assumptions dispatch_only_dispatchable.
@@ -646,3 +917,20 @@ Print Assumptions S_ok_step_agrees.
 Print Assumptions agree_straightline.
 Print Assumptions agree_straightline_evaluate.
 Print Assumptions never_valid_when_core_rejects_straight.
+Print Assumptions structuredb_is_structured.
+Print Assumptions straight_is_structured.
+Print Assumptions structured_concat.
+Print Assumptions lib_scan_finds_branches.
+Print Assumptions lib_scan_finds_branch_noelse.
+Print Assumptions core_conditional_is_branch_choice.
+Print Assumptions core_unexecuted_branch_is_noop.
+Print Assumptions agree_if_or_crash.
+Print Assumptions agree_if.
+Print Assumptions agree_if_evaluate.
+Print Assumptions if_crash_only_where_core_fails.
+Print Assumptions never_valid_when_core_rejects_structured.
+Print Assumptions standard_spends_agree.
+Print Assumptions long_item_with_nonzero_head_is_good.
+Print Assumptions lib_scan_finds_no_endif.
+Print Assumptions agree_if_missing_endif.
+Print Assumptions missing_endif_never_valid.
